@@ -288,16 +288,23 @@ theorem pickCallee_unknown_policy_panics :
                  callees := [1, 2] } 0 = none := by
   decide
 
+theorem noProc_panic (env : DEnv) (s : DState) (caller : SessKey) (req : Nat) :
+    (noProc env s caller req).panic = none := by
+  unfold noProc
+  split
+  · exact syncCancel_panic ..
+  · rfl
+
 theorem syncCall_no_panic {env : DEnv} {s : DState} (h : DealerInv s) (caller : SessKey) (req : Nat) (opts : Dict)
     (proc : String) (args : List WVal) (kw : Dict) (rnd : Nat) :
     (syncCall env s caller req opts proc args kw rnd).panic = none := by
   rw [syncCall_eq]
   split
-  · rfl
+  · exact noProc_panic ..
   · rename_i reg hm
     have hmem := matchProcedure_mem hm
     split
-    · rfl
+    · exact noProc_panic ..
     · split
       · rfl
       · split
